@@ -186,7 +186,10 @@ class State():
 
     def set_open_state(self, set_name: bool = False, early_stage: bool = False) -> None:
         if early_stage:
-            self.association.state_is_active = True
+            #: A stop requested while the connection was coming up is not
+            #: forgotten: the Open state sees it on its first tick.
+            self.association.state_is_active = \
+                                    not self.association.stop_requested
 
         if set_name:
             self.name = self.next_state = OPEN
@@ -615,6 +618,7 @@ class PeerStateMachine():
 
     def close(self) -> None:
         statemachine_logger.debug("Closing PeerStateMachine's thread.")
+        self.association.stop_requested = True
         self.association.state_is_active = False
 
 
